@@ -141,8 +141,13 @@ func runC05(c *Ctx) {
 			for _, i := range l {
 				parts = append(parts, items[i].src)
 			}
-			src := c05Transforms + "replace all " + body + " with " + strings.Join(parts, " ")
-			if !c.Unit(func() string { return "replace all " + body + " with " + strings.Join(parts, " ") }) {
+			// lists of one or two items are also run under amount clauses that do not start at the first match
+			head := "replace all "
+			if len(l) <= 2 {
+				head = []string{"replace all ", "replace skip 1 ", "replace last 2 ", "replace skip 1 take 1 "}[li%4]
+			}
+			src := c05Transforms + head + body + " with " + strings.Join(parts, " ")
+			if !c.Unit(func() string { return head + body + " with " + strings.Join(parts, " ") }) {
 				continue
 			}
 			v, err, pi := compileSafe(src)
@@ -154,6 +159,26 @@ func runC05(c *Ctx) {
 				c.Eval(1)
 				ms, pi := runSafe(v, t)
 				fm, pi2 := runSafe(fv, t)
+				total := len(fm)
+				switch head {
+				case "replace skip 1 ":
+					if len(fm) > 1 {
+						fm = fm[1:]
+					} else {
+						fm = nil
+					}
+				case "replace last 2 ":
+					if len(fm) > 2 {
+						fm = fm[len(fm)-2:]
+					}
+				case "replace skip 1 take 1 ":
+					if len(fm) > 1 {
+						fm = fm[1:2]
+					} else {
+						fm = nil
+					}
+				}
+				_ = total
 				if pi != nil || pi2 != nil {
 					c.Violation("RUN-PANIC", fmt.Sprintf("%q on %q panics: %v %v", src, t, pi, pi2), map[string]any{"kind": "replace", "src": src, "text": t})
 					continue
@@ -176,10 +201,19 @@ func runC05(c *Ctx) {
 					want := ""
 					for _, ii := range l {
 						want += items[ii].val(m, vars, len(ms))
+						if items[ii].src == "totalMatches" && head != "replace all " {
+							want = "" // totalMatches under a window is not fixed by the documentation
+						}
 					}
 					got := m.Replacement.GetValueOrDefault("")
 					c.Outcome(got)
-					if got != want {
+					skipTotal := false
+					for _, ii := range l {
+						if items[ii].src == "totalMatches" && head != "replace all " {
+							skipTotal = true
+						}
+					}
+					if got != want && !skipTotal {
 						c.Violation("REPLACEMENT "+strings.Join(parts, " "), fmt.Sprintf("%q on %q: match %d (%s) replacement %q, want %q", "replace all "+body+" with "+strings.Join(parts, " "), t, i, matchRecord(f), got, want),
 							map[string]any{"kind": "replace", "src": src, "text": t, "match": i, "want": want})
 						break
